@@ -25,7 +25,7 @@ RULE = (
     "detached at distance >= 2. distinct = by template text; non-trivial = at least 3 planted calls of which one "
     "sits in a multi-line construct or beyond line 5."
 )
-RULE += ' added since: blank lines after an opener, multi-line expressions / filter arguments / signatures (def, block, page, call - including an expression starting on the next line), untagged comments before control lines, magic-comment-only encodings, namespace definitions with attributes on later lines.'
+RULE += ' added since: blank lines after an opener, multi-line expressions / filter arguments / signatures (def, block, page, call - including an expression starting on the next line), untagged comments before control lines, magic-comment-only encodings, namespace definitions with attributes on later lines. messages on the continuation lines of backslash-continued control lines.'
 ASSUMPTIONS = [
     "not asserted: calls inside <%include file=> / filter= attributes of defs, and a gettext call used as the "
     "exception class of a `% except` line (the Lingua plugin blanks try/except/else lines)",
